@@ -120,6 +120,14 @@ def sim_check(prop, tier, seed, scenarios, spec, rule_filter, required_counters,
         mc_runs.append({"module": module, "cfg": cfg, "distinct_states": r["stats"]["distinct"],
                         "generated": r["stats"]["generated"], "wall_s": r["stats"]["wall_s"],
                         "action_coverage": r["stats"]["coverage"], "cmd": r["stats"]["cmd"]})
+    if tier == "thorough":
+        for (module, cfg) in (mc or {}).get("must_fail", []):
+            try:
+                vlib.run_tlc(module, cfg, wd, workers=4, timeout=600, capture_edges=False)
+            except ToolError:
+                mc_runs.append({"module": module, "cfg": cfg, "self_test": "violated as required"})
+                continue
+            raise ToolError(f"self test: {cfg} should violate its invariant but TLC found no error (vacuous invariant?)")
     # 2. executions of the real code
     t0 = time.time()
     runs = run_sim_batch(scenarios, wd, "s", jobs=jobs)
@@ -185,8 +193,8 @@ def sim_check(prop, tier, seed, scenarios, spec, rule_filter, required_counters,
             samples.append({"scenario": scenarios[k], "events": ranges[k][1] - ranges[k][0] + 1})
     nontrivial = sum(1 for k, run in enumerate(runs) if run and any(e["ev"] in ("Drop", "Dup", "Delay") for e in run))
     coverage = {
-        "states": res["states"] + sum(m["distinct_states"] for m in mc_runs),
-        "transitions": res["lines"] + sum(m["generated"] for m in mc_runs),
+        "states": res["states"] + sum(m.get("distinct_states", 0) for m in mc_runs),
+        "transitions": res["lines"] + sum(m.get("generated", 0) for m in mc_runs),
         "model_checking_runs": mc_runs,
         "traces_validated_against_impl": len(scenarios),
         "evaluations": len(scenarios),
